@@ -388,6 +388,15 @@ func mdJSON(g *genNet, seed int64, variant int) string {
 	return strings.ReplaceAll(strings.TrimSpace(buf.String()), " ", "\\u"+"0020")
 }
 
+// every place x every hostile character of the probe network
+func (mdStream) Exhaustive(tier string) [][]string {
+	var sc []string
+	for k := 0; k < 4*mdHostilePlaces; k++ {
+		sc = append(sc, sprintf("oracle mdtext %d", k))
+	}
+	return [][]string{sc}
+}
+
 func (mdStream) Gen(r *rand.Rand, tier string, idx int) []string {
 	n := 2
 	if tier == "thorough" {
@@ -402,8 +411,8 @@ func (mdStream) Gen(r *rand.Rand, tier string, idx int) []string {
 		}
 		sc = append(sc, "md doc "+mdJSON(mdBuild(seed, variant), seed, variant))
 	}
-	if idx%25 == 0 {
-		sc = append(sc, sprintf("oracle mdtext %d", (idx/25)%6))
+	if idx%3 == 0 {
+		sc = append(sc, sprintf("oracle mdtext %d", r.Intn(4*mdHostilePlaces)))
 	}
 	return sc
 }
@@ -1109,9 +1118,90 @@ func (e *mdExec) Do(line string) string {
 	return "ok " + strings.Join(parts, "|")
 }
 
-// hostileText: the smallest network with one signal, one of whose texts contains a character
-// that is structural in a Markdown pipe table.  The document must still have exactly one
-// signal row, of eight cells.
+// hostileText: a small network with every kind of table row (standard, enum and multiplexer
+// signal, a nested multiplexer with inner signals, type, unit, enum, enum value, message, node,
+// bus) is exported twice: as it is, and with ONE text (a name, description or symbol, chosen by
+// kind/2) replaced by a text that contains a character that is structural in a Markdown pipe
+// table (kind%2: pipe / line break).  The two documents must have the same shape: the same
+// headings count, the same tables, the same number of rows in each, every row of header width.
+const mdHostilePlaces = 24
+
+func mdHostileNet(place int, text string) (*acmelib.Network, string) {
+	where := "none"
+	set := func(p int, w string, f func()) {
+		if p == place {
+			where = w
+			f()
+		}
+	}
+	nm := func(p int, w, def string) string {
+		if p == place {
+			where = w
+			return text
+		}
+		return def
+	}
+	net := acmelib.NewNetwork(nm(0, "network-name", "net"))
+	bus := acmelib.NewBus(nm(1, "bus-name", "bus"))
+	must(net.AddBus(bus))
+	node := acmelib.NewNode(nm(2, "node-name", "node"), 1, 1)
+	must(bus.AddNodeInterface(node.Interfaces()[0]))
+	msg := acmelib.NewMessage(nm(3, "message-name", "msg"), 1, 8)
+	must(node.Interfaces()[0].AddSentMessage(msg))
+	typ, err := acmelib.NewIntegerSignalType(nm(4, "type-name", "typ"), 4, false)
+	must(err)
+	unit := acmelib.NewSignalUnit(nm(5, "unit-name", "unit"), acmelib.SignalUnitKindCustom, nm(6, "unit-symbol", "u"))
+	enum := acmelib.NewSignalEnum(nm(7, "enum-name", "enum"))
+	val := acmelib.NewSignalEnumValue(nm(8, "enum-value-name", "v1"), 1)
+	must(enum.AddValue(val))
+	std, err := acmelib.NewStandardSignal(nm(9, "standard-signal-name", "std"), typ)
+	must(err)
+	std.SetUnit(unit)
+	es, err := acmelib.NewEnumSignal(nm(10, "enum-signal-name", "es"), enum)
+	must(err)
+	mux, err := acmelib.NewMultiplexerSignal(nm(11, "multiplexer-name", "mux"), 2, 16)
+	must(err)
+	inner, err := acmelib.NewMultiplexerSignal(nm(12, "nested-multiplexer-name", "inner"), 2, 6)
+	must(err)
+	deep, err := acmelib.NewStandardSignal(nm(13, "nested-signal-name", "deep"), typ)
+	must(err)
+	set(14, "bus-desc", func() { bus.SetDesc(text) })
+	set(15, "node-desc", func() { node.SetDesc(text) })
+	set(16, "message-desc", func() { msg.SetDesc(text) })
+	set(17, "type-desc", func() { typ.SetDesc(text) })
+	set(18, "unit-desc", func() { unit.SetDesc(text) })
+	set(19, "enum-desc", func() { enum.SetDesc(text) })
+	set(20, "enum-value-desc", func() { val.SetDesc(text) })
+	set(21, "standard-signal-desc", func() { std.SetDesc(text) })
+	set(22, "multiplexer-desc", func() { mux.SetDesc(text) })
+	set(23, "nested-multiplexer-desc", func() { inner.SetDesc(text); deep.SetDesc(text); es.SetDesc(text) })
+	must(inner.InsertSignal(deep, 0))
+	must(mux.InsertSignal(inner, 0, 1))
+	must(msg.AppendSignal(std))
+	must(msg.AppendSignal(es))
+	must(msg.AppendSignal(mux))
+	return net, where
+}
+
+func mdShape(doc string) (string, bool) {
+	var b strings.Builder
+	ok := true
+	for _, it := range mdParse(doc) {
+		if it.level != 0 {
+			b.WriteString(sprintf("H%d ", it.level))
+			continue
+		}
+		b.WriteString(sprintf("T%dx%d ", len(it.header), len(it.rows)))
+		for _, r := range it.rows {
+			if len(r) != len(it.header) {
+				ok = false
+				b.WriteString(sprintf("(row of %d) ", len(r)))
+			}
+		}
+	}
+	return b.String(), ok
+}
+
 func (e *mdExec) hostileText(kind int) string {
 	text := "a|b"
 	what := "pipe"
@@ -1119,59 +1209,37 @@ func (e *mdExec) hostileText(kind int) string {
 		text = "line one\nline two"
 		what = "newline"
 	}
-	net := acmelib.NewNetwork("net")
-	bus := acmelib.NewBus("bus")
-	must(net.AddBus(bus))
-	node := acmelib.NewNode("node", 1, 1)
-	must(bus.AddNodeInterface(node.Interfaces()[0]))
-	msg := acmelib.NewMessage("msg", 1, 8)
-	must(node.Interfaces()[0].AddSentMessage(msg))
-	typ, err := acmelib.NewIntegerSignalType("typ", 8, false)
-	must(err)
-	name := "sig"
-	where := "signal-desc"
-	switch kind / 2 {
-	case 1:
-		name = text
-		where = "signal-name"
-	case 2:
-		typ.SetDesc(text)
-		where = "type-desc"
+	if kind%4 == 3 {
+		text = "cr\rlf"
+		what = "carriage-return"
 	}
-	sig, err := acmelib.NewStandardSignal(name, typ)
-	must(err)
-	if kind/2 == 0 {
-		sig.SetDesc(text)
+	place := (kind / 2) % mdHostilePlaces
+	export := func(n *acmelib.Network) (string, error) {
+		var buf bytes.Buffer
+		err := acmelib.ExportToMarkdown(n, &buf)
+		return buf.String(), err
 	}
-	must(msg.AppendSignal(sig))
-	var buf bytes.Buffer
-	if err := acmelib.ExportToMarkdown(net, &buf); err != nil {
-		e.add("C16", "c16-export-error:"+err.Error(), sprintf("mdtext %d", kind))
+	cleanNet, _ := mdHostileNet(-1, "")
+	clean, err := export(cleanNet)
+	if err != nil {
+		e.add("C16", "c16-export-error:"+err.Error(), sprintf("mdtext %d (clean network)", kind))
 		return "err"
 	}
-	bad := false
-	nTables := 0
-	for _, it := range mdParse(buf.String()) {
-		if it.level != 0 {
-			continue
-		}
-		nTables++
-		want := 1 // one signal, one type
-		if len(it.header) == 4 {
-			want = 0
-		}
-		if len(it.rows) != want {
-			bad = true
-		}
-		for _, r := range it.rows {
-			if len(r) != len(it.header) {
-				bad = true
-			}
-		}
+	hostNet, where := mdHostileNet(place, text)
+	host, err := export(hostNet)
+	if err != nil {
+		e.add("C16", "c16-export-error:"+err.Error(), sprintf("mdtext %d: %s = %q", kind, where, text))
+		return "err " + where
 	}
-	if bad || nTables != 3 {
-		e.add("C16", "c16-text-breaks-table:"+what, sprintf("one signal (%s = %q) in one message: the rendered tables do not have one row of header width per entry", where, text))
+	cs, cok := mdShape(clean)
+	hs, hok := mdShape(host)
+	if !cok {
+		e.add("C16", "c16-row-width", sprintf("mdtext %d: the clean probe network has a row whose width differs from its header: %s", kind, cs))
+		return "broken clean"
+	}
+	if !hok || cs != hs {
+		e.add("C16", "c16-text-breaks-table:"+what, sprintf("probe network with %s = %q: the document shape changes from [%s] to [%s] (H = heading, T<header width>x<rows>)", where, text, cs, hs))
 		return "broken " + what + " " + where
 	}
-	return "ok"
+	return "ok " + what + " " + where
 }
